@@ -15,6 +15,7 @@ import (
 	"encoding/hex"
 	"fmt"
 	"net"
+	"os"
 	"sort"
 	"strings"
 	"sync"
@@ -42,6 +43,7 @@ type ReqObs struct {
 	Complete  bool     `json:"complete"`
 	BodyLen   int      `json:"body_len"`
 	Aborted   bool     `json:"aborted,omitempty"`
+	Marker    bool     `json:"marker,omitempty"` // translator route: the Anthropic message is complete (message_stop event / "type":"message")
 	Contacted []string `json:"contacted"` // backends that saw this request, in arrival order
 }
 
@@ -281,6 +283,7 @@ func Run(sc *Scenario) *Obs {
 			} else {
 				r := stack.Do(s.Addr, raw, 8*time.Second)
 				res[i] = ReqObs{Err: r.Err, Status: r.Status, Complete: r.Complete, BodyLen: len(r.Body)}
+				res[i].Marker = bytes.Contains(r.Body, []byte("message_stop")) || bytes.Contains(r.Body, []byte(`"type":"message"`))
 			}
 			res[i].Cid = i
 			fmu.Lock()
@@ -291,7 +294,10 @@ func Run(sc *Scenario) *Obs {
 	}
 	if sc.Gated {
 		// wait until every request is either held inside a backend or finished
+		// (the olla engine caps connections per endpoint: requests beyond the cap wait inside the transport,
+		// already dispatched — so also stop once nothing has moved for a while)
 		deadline := time.Now().Add(5 * time.Second)
+		last, lastChange := -1, time.Now()
 		for time.Now().Before(deadline) {
 			held := 0
 			for _, b := range backends {
@@ -301,6 +307,11 @@ func Run(sc *Scenario) *Obs {
 			f := int(finished)
 			fmu.Unlock()
 			if held+f >= n {
+				break
+			}
+			if held+f != last {
+				last, lastChange = held+f, time.Now()
+			} else if held+f > 0 && time.Since(lastChange) > 400*time.Millisecond {
 				break
 			}
 			time.Sleep(5 * time.Millisecond)
@@ -320,8 +331,18 @@ func Run(sc *Scenario) *Obs {
 	for i := 0; i < n; i++ {
 		<-done
 	}
+	if sc.Abort {
+		// the backend is still stalling mid-body: wait until it has closed its side
+		ms := 0
+		for _, e := range sc.EPs {
+			if e.Beh.StallMs > ms {
+				ms = e.Beh.StallMs
+			}
+		}
+		time.Sleep(time.Duration(ms+600) * time.Millisecond) // sherpa notices the client's absence only on its next 1 s tick
+	}
 	// quiescence: every backend has finished what it was doing, then gauges and counters settle
-	deadline := time.Now().Add(6 * time.Second)
+	deadline := time.Now().Add(2 * time.Second)
 	for time.Now().Before(deadline) {
 		open := int64(0)
 		for _, b := range backends {
@@ -334,6 +355,20 @@ func Run(sc *Scenario) *Obs {
 		time.Sleep(10 * time.Millisecond)
 	}
 	stack.Quiesce(func() string { return fmt.Sprint(s.Stats.GetConnectionStats(), s.Stats.GetProxyStats(), s.Stats.GetTranslatorStats()) })
+	if os.Getenv("C19_DEBUG") != "" {
+		t1 := time.Now()
+		for time.Since(t1) < 40*time.Second {
+			sum := int64(0)
+			for _, v := range s.Stats.GetConnectionStats() {
+				sum += v
+			}
+			if sum == 0 {
+				break
+			}
+			time.Sleep(50 * time.Millisecond)
+		}
+		fmt.Fprintln(os.Stderr, "C19_DEBUG extra wait until gauges zero:", time.Since(t1), s.Stats.GetConnectionStats(), s.Stats.GetProxyStats())
+	}
 	type hit struct {
 		seq  int64
 		name string
